@@ -169,6 +169,7 @@ where
                                 target_max_depth,
                                 &max_depth,
                                 symmetry,
+                                &shutdown,
                             );
 
                             #[cfg(feature = "getong_stateright_verif")]
@@ -222,6 +223,7 @@ where
         target_max_depth: Option<NonZeroUsize>,
         global_max_depth: &AtomicUsize,
         symmetry: Option<fn(&M::State) -> M::State>,
+        shutdown: &AtomicBool,
     ) {
         let properties = model.properties();
 
@@ -254,6 +256,12 @@ where
             ebits
         };
         'outer: loop {
+            // A trace can be arbitrarily long, so the timeout must be observed inside it too. The
+            // path so far is not maximal, so there is nothing to report.
+            if shutdown.load(Ordering::Relaxed) {
+                log::trace!("Got shutdown signal within a trace");
+                return;
+            }
             if fingerprint_path.len() > current_max_depth {
                 let _ = global_max_depth.compare_exchange(
                     current_max_depth,
